@@ -419,7 +419,7 @@ func (m *Mux) serveHTTP(w http.ResponseWriter, r *http.Request) error {
 
 			code := WSStatusCode(s.Code())
 			// A close frame carries at most 123 bytes of valid UTF-8.
-			reason := s.Message()
+			reason := strings.ToValidUTF8(s.Message(), "\uFFFD")
 			if max := ws.MaxControlFramePayloadSize - 2; len(reason) > max {
 				reason = reason[:max]
 				for len(reason) > 0 && !utf8.ValidString(reason) {
